@@ -265,13 +265,15 @@ def tasks(tier, seed):
     for sh in tier_shapes(tier):
         ts.append((task_speval, (sh,)))
         ts.append((task_evalnodes, (sh, False)))
-        ts.append((task_evalnodes, (sh, True)))
+        if sh[0] <= 3:          # rational functions in 5+ symbolic weights blow up in the field; degree 4 stays polynomial-only
+            ts.append((task_evalnodes, (sh, True)))
         ts.append((task_curve, (sh, False, 0)))
         ts.append((task_curve_seq, (sh, False)))
         if sh[0] <= 2:
             ts.append((task_curve_seq, (sh, True)))
-        if tier != "quick" or sh[0] <= 2:
+        if (tier != "quick" and sh[0] <= 3) or sh[0] <= 2:
             ts.append((task_curve, (sh, True, 0)))
+        if tier != "quick" or sh[0] <= 2:
             ts.append((task_curve, (sh, False, 2)))
         if tier != "quick" and sh[0] <= 3:
             ts.append((task_curve, (sh, True, 2)))
@@ -393,4 +395,4 @@ INFO = dict(
 def info(tier, seed, obs):
     return dict(bounds="tier %s: shapes %s" % (tier, "p<=3 with <=1 distinct interior knot, p<=2 with 2" if tier == "quick"
                                                 else "p<=4 with <=2 distinct interior knots, p<=2 with 3")
-                + "; all multiplicities 1..p+1; parameter in every open span, at every knot, both ends, outside; scalar and 2-D points")
+                + "; rational (symbolic weights) up to degree 3; all multiplicities 1..p+1; parameter in every open span, at every knot, both ends, outside; scalar and 2-D points")
